@@ -99,7 +99,9 @@ func mapOrderOverlay(repo, out string, roots []string, replace map[string]string
 			})
 			rel, _ := filepath.Rel(repo, file)
 			if goStmts > 0 && isGeneratorPkg(p.PkgPath) {
-				return fmt.Errorf("%s: go statement in a generator package: generators are assumed to be sequential", rel)
+				// goroutines inside a generator: their interleavings are not enumerated by the
+				// map-order exploration; the harness is told and samples GOMAXPROCS instead
+				report = append(report, fmt.Sprintf("GO-STATEMENTS %s: %d", rel, goStmts))
 			}
 			if n == 0 {
 				continue
